@@ -8,7 +8,7 @@ FAMILIES = {
     "nt": "harness.nt",
     "ttl": "harness.ttl",
     "guard": "guard2smt.check",
-    "stage": "harness.stage",
+    "stage": "harness.stage_run",
     "strfn": "harness.strfn",
     "step": "harness.step",
     "api": "harness.api",
